@@ -121,6 +121,8 @@ def features(doc):
         f.add("adjacent")
     if any("like" in t for t in tabs):
         f.add("identical_tables")
+    if any(t.get("wrap") for t in tabs):
+        f.add("wrapped_table")
 
     def tab(t, depth):
         if depth:
@@ -511,6 +513,69 @@ def w_odp(repo, tier):
     return run_walker("C13/odp_extractor.py::_extract_table", ODP, [[t] for t in single_tables(True, nested=True)], one)
 
 
+ODF_D = "{urn:oasis:names:tc:opendocument:xmlns:drawing:1.0}"
+ODF_S = "{urn:oasis:names:tc:opendocument:xmlns:svg-compatible:1.0}"
+
+
+def w_odp_slide(repo, tier):
+    """_extract_slide on a draw:page of 1..3 table frames (+ an empty frame): frames without position, with positions that
+    ascend in document order, and with EQUAL positions (ties keep document order): slide.tables == the grids in reading order"""
+    def inst(reg):
+        reg.add(assumed_text(ODP, "_get_text_recursive"))
+        install_concrete_re(reg, ODP, repo)
+    run = Run(ODP, repo, inst)
+    P = ["p"]
+    tabs = (T([[P]]), T([[P, P]]), T([[P], [P]]))
+    cases = []
+    for n in (1, 2, 3):
+        for layout in ("none", "ascending", "equal"):
+            for empty_frame in (False, True):
+                cases.append({"doc": [tabs[k] for k in range(n)], "positions": layout, "empty_frame": empty_frame})
+    tally = Tally("C13/odp_extractor.py::_extract_slide", CLAUSES)
+    for case in my_part(cases):
+        doc, feats = case["doc"], features(case["doc"]) + [f"positions_{case['positions']}"]
+        frames = []
+        for bi, b in enumerate(doc):
+            at = {} if case["positions"] == "none" else ({ODF_S + "x": VStr("1cm"), ODF_S + "y": VStr("2cm")} if case["positions"] == "equal"
+                                                         else {ODF_S + "x": VStr("1cm"), ODF_S + "y": VStr(f"{bi + 1}cm")})
+            tree = build_xml_tree([b], "x", ODF_TAGS).children[0]
+            # texts of block bi
+            tree = build_xml_tree([None] * bi + [b], "x", dict(ODF_TAGS), ) if False else tree
+            frames.append(CNode(ODF_D + "frame", attrib=at, children=[_retag(tree, bi)]))
+        if case["empty_frame"]:
+            frames.insert(1 if len(frames) > 1 else 0, CNode(ODF_D + "frame", attrib={}))
+        page = CNode(ODF_D + "page", attrib={ODF_D + "name": VStr("page1")}, children=frames)
+        want = [g for bi, b in enumerate(doc) for g in expected_grids([None] * bi + [b], nl_rule)] if False else \
+            [[[nl_rule(c, f"b{bi}.r{ri}c{ci}") for ci, c in enumerate(r)] for ri, r in enumerate(b["rows"])] for bi, b in enumerate(doc)]
+        try:
+            rets, raises = run.call("_extract_slide", {"ctx": VUnk("ctx"), "page": page.v, "slide_number": VInt(1), "image_counter": VInt(0)})
+        except Unsupported as e:
+            for k in CLAUSES:
+                tally.record(k, "unknown", case, feats, f"OUT-OF-SUBSET {e}"[:200])
+            continue
+        feas = [r for r in raises if _feasible(r[0].pc)]
+        definite = [r for r in feas if not mentions_over(r[0].pc)]
+        tally.record(CLAUSES[0], "refuted" if definite else ("unknown" if feas else "proved"), case, feats,
+                     "an exception can escape" if definite else ("exception only on an over-approximated path" if feas else ""))
+        if not rets:
+            for k in CLAUSES[1:]:
+                tally.record(k, "refuted" if definite else "unknown", case, feats, "no normal outcome")
+        for (s_, v) in rets:
+            r = run.ex.concrete_items(s_, v) if isinstance(v, VTuple) else None
+            slide = r[0] if r else None
+            got = to_py(s_, s_.obj(slide.ref).data.get("tables")) if isinstance(slide, VRef) and s_.obj(slide.ref).kind == "obj" else ("?", "no slide")
+            compare(tally, s_.pc, got, want, case, feats)
+    return {"obligations": tally.obligations(ODP)}
+
+
+def _retag(table_node, bi):
+    """give the paragraphs of a table built as block 0 the texts of block bi"""
+    for n in table_node.iter():
+        if getattr(n, "ptext", None) is not None and z3.is_const(n.ptext) and str(n.ptext).startswith("t_b0"):
+            n.ptext = z3.String("t_b" + str(bi) + str(n.ptext)[4:])
+    return table_node
+
+
 def w_pptx(repo, tier):
     run = Run(PPTX, repo, lambda reg: reg.add(assumed_text(PPTX, "_extract_text_from_paragraphs", "elem")))
     uri = loader.module(PPTX, repo).literal("TABLE_URI")
@@ -637,6 +702,10 @@ def html_shapes():
     cells = ([], ["p"], ["p", "p"])
     out = [[t] for t in single_tables(True, True, cells, extra_cells=(["s"], ["s", "p"]))]
     out += [d for d in docs(True) if len(d) > 1]
+    # a table inside non-table wrapper elements (block, inline, unknown tags; one and two levels)
+    for w in (["div"], ["center"], ["span"], ["font", "center"], ["a", "span"], ["b", "i"], ["div", "font"]):
+        out.append([dict(T([[["p"], ["p"]]]), wrap=w)])
+        out.append([dict(T([[["p"]]]), wrap=w), T([[["p"]]])])
     SC, P = ["/"], ["p"]
     for rows in ([[SC]], [[SC, P]], [[P, SC]], [[SC, SC]], [[SC], [P]], [[P], [SC]], [[P, SC], [SC, P]], [[SC, SC], [P, P]], [[P, P], [SC, SC]]):
         out.append([T(rows)])
@@ -658,6 +727,13 @@ def html_events(doc):
         ev.append(("e", "p"))
 
     def table(t, path):
+        for w in t.get("wrap", ()):
+            ev.append(("s", w))
+        table_inner(t, path)
+        for w in reversed(t.get("wrap", ())):
+            ev.append(("e", w))
+
+    def table_inner(t, path):
         ev.append(("s", "table"))
         for ri, r in enumerate(t["rows"]):
             if t["hdr"] and ri == 0:
@@ -1348,4 +1424,4 @@ def w_iter(repo, tier):
     return {"obligations": tally.obligations(DTYPES)}
 
 
-WALKERS = [w_docx, w_odt, w_odp, w_pptx, w_html, w_epub, w_xlsx, w_xls, w_ods, w_iter, w_rtf]
+WALKERS = [w_docx, w_odt, w_odp, w_odp_slide, w_pptx, w_html, w_epub, w_xlsx, w_xls, w_ods, w_iter, w_rtf]
